@@ -49,6 +49,12 @@ func init() {
 			if r.Chance(1, 50) {
 				c.RDict = 0
 			}
+			if idx == 4242 || (tier == "thorough" && idx%100000 == 4242) {
+				// the largest declarable dictionary (the reader sizes its window from it:
+				// 4 GiB of address space, untouched), once per batch
+				c.Stream = StreamRecipe{Kind: "refenc-xz-maxdict", Seed: r.Uint64()}
+				c.Reads, c.RDict = []int{4096}, 4096
+			}
 			if r.Chance(1, 2500) {
 				// more than 8 MiB of content with matches reaching beyond the reader's default window
 				c.Stream = StreamRecipe{Kind: "refenc-far-xz", Seed: r.Uint64()}
